@@ -494,6 +494,41 @@ class Store:
         self.rig.reopen_cycle()
         self.reopens += 1
 
+    def visit_other_database(self):
+        '''the process closes this database, works on another one - new,
+        filled here with the same catalogue names in the opposite order, so
+        that every table ends up with the same size - closes it and comes
+        back.  Returns True when some table had two or more names.'''
+        import shutil
+
+        import dawgie.context
+        from dawgie.db.shelve import util
+        from dawgie.db.shelve.state import DBI
+
+        c = dawgie.context
+        here = c.db_path
+        other = here + '.other'
+        tables, indices = self.tables()
+        names = {tn: list(getattr(indices, tn))
+                 for tn in ('target', 'task', 'alg', 'state', 'value')}
+        self.db.close()
+        try:
+            shutil.rmtree(other, ignore_errors=True)
+            os.mkdir(other)
+            c.db_path = other
+            self.db.open()
+            for tn, lst in names.items():
+                for name in reversed(lst):
+                    # (the stored form already carries parent and version)
+                    util.append(name, getattr(DBI().tables, tn),
+                                getattr(DBI().indices, tn))
+            self.db.close()
+        finally:
+            c.db_path = here
+            shutil.rmtree(other, ignore_errors=True)
+            self.db.open()
+        return any(len(v) > 1 for v in names.values())
+
     def purge(self):
         '''python -m dawgie.db.tools.purge on the closed store'''
         import dawgie.context
